@@ -2,11 +2,12 @@
 from vlib import core, text_oracles
 
 # PrintSpec: the printer writes exactly the message's slices, in order, through its 2056-byte buffer (C19_printed_eq_written, C13_parts_bytes)
-MODS = ['S4V.Props.SyslSpec', 'S4V.Props.LinesSpec', 'S4V.Props.CacheSpec', 'S4V.Props.SyslCacheSpec', 'S4V.Props.PrintSpec']
+MODS = ['S4V.Props.SyslSpec', 'S4V.Props.LinesSpec', 'S4V.Props.CacheSpec', 'S4V.Props.SyslCacheSpec', 'S4V.Props.SearchSkelSpec', 'S4V.Props.PrintSpec']
 LEVEL_NOTE = ("Proved for every parser P, every byte string and every block size: lines tile the file (lines_partition, findLine_spec), messages "
               "(a timestamped line + following lines) are contiguous, start at the first timestamped line and end at the last byte (messages_partition), "
               "find_sysline returns the message containing the offset (findSysline_spec) and the streaming loop emits every message exactly once in file order "
-              "(streamAll_unfiltered). Models tied to the code by in-process differential runs of LineReader / SyslineReader (random access, warm caches, drops, gz) "
+              "(streamAll_unfiltered); the two line walks of find_sysline_year and the streaming loop are also regenerated from the source as skeletons whose interpreters are proved equal "
+              "to these models (SearchSkelSpec: C02_findSysline_skeleton_is_model, C02_stream_generated_unfiltered). Models tied to the code by in-process differential runs of LineReader / SyslineReader (random access, warm caches, drops, gz) "
               "and of the block-zero gate. The SyslineReader's own stored state (syslines, syslines_by_range, the find_sysline LRU; lookup order and invalidation "
               "regenerated from syslinereader.rs as Gen.SyslCache) is modelled and proved sound for every history of finds, in-block finds, drops, clears and removes "
               "(SyslCacheSpec: findSyslineCached_sound - never a wrong message; runOps_transparent_nodrop; streaming_discipline: the find-then-drop pattern of "
@@ -27,8 +28,8 @@ def oracle(ctx):
 
 
 def check(ctx):
-    return core.standard_check(ctx, ['Blocks', 'Filter', 'Consts', 'Print', 'SyslCache'], MODS,
-                               [('sysl', 1500, 20000), ('syslc', 6000, 60000), ('line', 800, 8000), ('gate', 150, 2000), ('proc', 400, 6000), ('prt', 600, 8000)], oracle, LEVEL_NOTE, ASSUME)
+    return core.standard_check(ctx, ['Blocks', 'Filter', 'Consts', 'Print', 'SyslCache', 'Search'], MODS,
+                               [('sysl', 1500, 20000), ('syslc', 6000, 60000), ('srch', 600, 4000), ('line', 800, 8000), ('gate', 150, 2000), ('proc', 400, 6000), ('prt', 600, 8000)], oracle, LEVEL_NOTE, ASSUME)
 
 
 def replay(ctx, data):
